@@ -214,6 +214,20 @@ class PythonExpressionMapper(StringifyMapper):
                 expr.function, expr.parameters,
                 expr.kw_parameters)
 
+    def map_power(self, expr, enclosing_prec):
+        # In Python, "**" is right-associative and binds more tightly than a
+        # unary minus on its left: "a**b**c" is a**(b**c) and "-2**2" is
+        # -(2**2). So a base that is itself a power or a negative number
+        # needs parentheses.
+        from pymbolic.mapper.stringifier import PREC_POWER
+        from pymbolic.primitives import is_constant
+        base = self.rec(expr.base, PREC_POWER + 1)
+        if is_constant(expr.base) and base.startswith("-"):
+            base = "(%s)" % base
+        return self.parenthesize_if_needed(
+            "{}**{}".format(base, self.rec(expr.exponent, PREC_POWER)),
+            enclosing_prec, PREC_POWER)
+
     def map_if(self, expr, enclosing_prec):
         from dagrt.expression import PREC_IFTHENELSE
         return self.parenthesize_if_needed(
